@@ -91,7 +91,27 @@ def run(ctx):
     cut = {(o, b, l) for o in opens for (b, l) in g.succ[o] if l == "X"}
     r = g_dir.copy_without(cut).reachable_from_entry()
     ctx.check("nested-branches-kept", where, bool(hs) and not (set(apps) & r), "a directory is kept for deletion only when ControlDir.open() raised NotBranchError", message="a directory containing a nested branch can end up in the deletion list")
-    ctx.check("nested-branches-kept", where, all("NotBranchError" in norm(n.ast.type) for n in g.nodes if n.kind == "handler"), "only NotBranchError is treated as 'not a branch'")
+    from ..astutil import handler_types
+
+    htypes = sorted({t.split(".")[-1] for n in g.nodes if n.kind == "handler" for t in handler_types(n.ast)})
+    ctx.check("nested-branches-kept", where, htypes == ["NotBranchError"], "only NotBranchError is treated as 'not a branch' (an unreadable or unsupported control directory is still a branch and must not be deleted)", construct=str(htypes), message=f"a directory is queued for deletion when ControlDir.open raises any of {htypes}: a nested branch in a format this breezy cannot open would be deleted")
+    # ---- the enumeration of unversioned paths does not walk through symlinks ---------------------
+    WT = "breezy/bzr/workingtree.py"
+    fe = repo.func(WT, "InventoryWorkingTree.extras")
+    ge = build_cfg(fe)
+    we = f"{WT}:InventoryWorkingTree.extras"
+    ls = need(we, calling(ge, name="os.listdir"), "os.listdir(...)")
+    isd = [n for n in ge.nodes if n.kind == "test" and "osutils.isdir(dirabs)" in norm(n.ast)]
+    ok = len(isd) == 1
+    if ok:
+        env = {norm(isd[0].ast): (not norm(isd[0].ast).startswith("not "))}  # value of the test when dirabs is NOT a real directory
+        ok = not (set(ls) & ge.assume({"osutils.isdir(dirabs)": False, "not osutils.isdir(dirabs)": True}).reachable_from_entry())
+    ctx.check("extras-stays-inside-tree", we, ok, "a versioned directory is listed only after osutils.isdir(dirabs) (lstat based: a symlink that replaced the directory is not followed)", message="extras() lists a versioned directory without the lstat-based isdir() guard: if the directory was replaced by a symlink, files outside the tree are reported as unknown and clean-tree deletes them")
+    from ..rustlite import RustFile
+
+    rb = RustFile(repo, "crates/osutils/src/file.rs").fn_body("isdir")
+    ctx.check("extras-stays-inside-tree", "crates/osutils/src/file.rs:isdir", "symlink_metadata" in rb and "fs::metadata(" not in rb, "osutils.isdir is lstat based (symlink_metadata): it does not follow symlinks", message="osutils.isdir follows symlinks: a symlink to a directory outside the tree would be walked")
+    ctx.check("extras-stays-inside-tree", we, all("dirabs" in norm(c.args[0]) for i in ls for c in ge.nodes[i].calls() if norm(c.func) == "os.listdir"), "the directory listed is the one that was tested")
     rets = [norm(r_.value) for r_ in walk_own(fn) if isinstance(r_, ast.Return)]
     ctx.check("nested-branches-kept", where, rets == ["result"], "the filtered list is what is returned")
 
